@@ -94,6 +94,65 @@ def inventory(build_dir):
     return sorted(syms, key=lambda t: (pos.get(t[3], 10 ** 9), t[3], t[0], t[1], t[2]))
 
 
+def leaf_of(name):
+    """unqualified identifier of a normalised inventory name: text after the last '::', GCC '.N' suffix dropped"""
+    leaf = name.rsplit("::", 1)[-1]
+    return re.sub(r"\.N$", "", leaf)
+
+
+SRC_ROOTS = ["SimTKcommon", "SimTKmath", "Simbody"]
+SRC_SKIP = ("/tests", "/examples", "/simbody-visualizer", "/doc", "/pthreads", "/Windows", "/AuxiliaryFiles", "/.git")
+_DECL = re.compile(r"^\s*[{};]?\s*static\s+(?:thread_local\s+)?(?!inline\b|struct\b|class\b|void\b|enum\b|union\b)"
+                   r"([\w:<>,\s\*&]+?)[\s\*&]+(\w+)\s*(?:\[[^\]]*\]\s*)*(=|;|\{)")
+
+
+def strip_comments_and_if0(txt):
+    txt = re.sub(r"/\*.*?\*/", lambda m: "\n" * m.group(0).count("\n"), txt, flags=re.S)
+    txt = re.sub(r"//[^\n]*", "", txt)
+    out, depth0, stack = [], 0, []
+    for ln in txt.split("\n"):
+        t = ln.strip()
+        if t.startswith("#if"):
+            stack.append(bool(re.match(r"#if\s+0\b", t)) or (stack[-1] if stack else False))
+        elif t.startswith("#else") or t.startswith("#elif"):
+            if stack and re.match(r"#if", "#if") and not (len(stack) > 1 and stack[-2]):
+                stack[-1] = False if stack[-1] else stack[-1]
+        elif t.startswith("#endif"):
+            if stack:
+                stack.pop()
+        out.append("" if (stack and stack[-1]) else ln)
+    return "\n".join(out)
+
+
+def source_statics(repo):
+    """(file, line, identifier) of every `static` non-const object declaration (function-local, class-level or
+    file-level) in the library sources — a regex view of the source, deliberately simple: comments and `#if 0` blocks
+    removed, declarations whose type mentions `const`/`constexpr` skipped, functions skipped (a '(' before the name)."""
+    found = []
+    for root in SRC_ROOTS:
+        for d, ds, fs in os.walk(os.path.join(repo, root)):
+            ds.sort()
+            if any(x in d for x in SRC_SKIP):
+                continue
+            for f in sorted(fs):
+                if not f.endswith((".cpp", ".h", ".c", ".hpp", ".cc")):
+                    continue
+                path = os.path.join(d, f)
+                try:
+                    txt = strip_comments_and_if0(open(path, errors="replace").read())
+                except OSError:
+                    continue
+                for n, ln in enumerate(txt.split("\n"), 1):
+                    m = _DECL.match(ln)
+                    if not m:
+                        continue
+                    typ, ident = m.group(1), m.group(2)
+                    if re.search(r"\b(const|constexpr|typedef|friend|return)\b", typ) or "(" in ln[:m.start(2)]:
+                        continue
+                    found.append((os.path.relpath(path, repo), n, ident))
+    return sorted(set((f, i) for f, _, i in found))
+
+
 def lean_str(s):
     return '"' + s.replace("\\", "\\\\").replace('"', '\\"') + '"'
 
@@ -112,8 +171,16 @@ def gen(ctx):
              "open C46 C46.Sect",
              "def statics : List C46.Sym := ["]
     for k, (lib, s, guard, name) in enumerate(syms):
-        lines.append("  ⟨%s, %s, %s, key! %s, %s⟩%s" % (lean_str(lib), s.lstrip("."), "true" if guard else "false", lean_str(name),
-                                                         lean_str(name), "," if k + 1 < len(syms) else ""))
+        lines.append("  ⟨%s, %s, %s, key! %s, key! %s, %s⟩%s" % (lean_str(lib), s.lstrip("."), "true" if guard else "false", lean_str(name),
+                                                                  lean_str(leaf_of(name)), lean_str(name), "," if k + 1 < len(syms) else ""))
+    srcs = source_statics(vlib.REPO)
+    lines += ["]", "",
+              "/-- every `static` non-const object declaration found in the library sources (regex view, see checks/C46.py:",
+              "source_statics): file, unqualified identifier -/",
+              "def sourceStatics : List C46.SrcStatic := ["]
+    for k, (f, ident) in enumerate(srcs):
+        lines.append("  ⟨%s, key! %s, key! %s, %s⟩%s" % (lean_str(f), lean_str(ident), lean_str(f + ":" + ident), lean_str(ident),
+                                                       "," if k + 1 < len(srcs) else ""))
     lines += ["]", "end C46.Gen", ""]
     txt = "\n".join(lines)
     path = os.path.join(vlib.LEAN, GEN_REL)
@@ -126,7 +193,7 @@ def gen(ctx):
     names = {s[3] for s in syms}
     anchors = ["SimTK::Random::RandomImpl::nextSeed", "SimTK::Pi", "SimTK::CollisionDetectionAlgorithm::algorithmMap"]
     missing = [a for a in anchors if a not in names]
-    return dict(file=GEN_REL, symbols=len(syms), changed=(old != txt), missing_anchors=missing)
+    return dict(file=GEN_REL, symbols=len(syms), source_statics=len(srcs), changed=(old != txt), missing_anchors=missing)
 
 
 SPEC = dict(
